@@ -7,6 +7,7 @@ import (
 	"encoding/json"
 	"fmt"
 	"math/big"
+	"regexp"
 	"sort"
 	"strings"
 
@@ -244,8 +245,13 @@ func cmdTracerPair(args []string) error {
 	return writeJSON(c.out, "stats.json", stats)
 }
 
-// normTracerJSON rewrites `invalid opcode: <name>` error texts to their class.
+// the five opcode bytes Artela renumbered or added have different NAMES in the two code bases even where both leave
+// them undefined (0x5c/0x5d/0x5e are TLOAD/TSTORE/MCOPY in Artela's name table, 0xb3/0xb4 TLOAD/TSTORE in go-ethereum's)
+var renumberedOpName = regexp.MustCompile(`"op":"(TLOAD|TSTORE|MCOPY|opcode 0x(5c|5d|5e|b3|b4) not defined)"`)
+
+// normTracerJSON rewrites `invalid opcode: <name>` error texts to their class and the names of the renumbered opcode bytes.
 func normTracerJSON(s string) string {
+	s = renumberedOpName.ReplaceAllString(s, `"op":"<renumbered opcode byte>"`)
 	b := []byte(s)
 	key := []byte("invalid opcode: ")
 	for {
